@@ -107,6 +107,32 @@ Definition reimport (startID : Z) (s : impl) : impl :=
   mkImpl (import_tris (relation s) startID (-1) (-1) 0 srt)
          (import_relation (relation s) startID (run_pairs (-1) (-1) srt)) false.
 
+(* ---- runs without triangles ----
+   GetMeshGLImpl appends one run (runIndex entry 3*numTri) for every relation
+   entry whose mesh contributed no triangle, in ascending meshID order (`extra`).
+   On import run j (empty or not) becomes meshID startID + j with the run's
+   relation, so after the trip the same entries are again without triangles. *)
+Fixpoint last_run (last n : Z) (l : list itri) : Z :=
+  match l with
+  | [] => n
+  | t :: r => last_run (meshID t) (if meshID t =? last then n else n + 1) r
+  end.
+Fixpoint empty_pairs (j : Z) (extra : list Z) : list (Z * Z) :=
+  match extra with [] => [] | m :: r => (j, m) :: empty_pairs (j + 1) r end.
+Fixpoint new_ids (startID j : Z) (extra : list Z) : list Z :=
+  match extra with [] => [] | _ :: r => (startID + j) :: new_ids startID (j + 1) r end.
+Definition rel_attr (r : rel) : Z * Z * Z := (rOrig r, rXform r, rFlags r).
+(* (runOriginalID, runTransform, runFlags) of the trailing empty runs, in order *)
+Definition export_empty_attrs (rl : Z -> rel) (extra : list Z) : list (Z * Z * Z) :=
+  map (fun m => rel_attr (rl m)) extra.
+(* the relation after importing an export of srt with the empty runs `extra` *)
+Definition reimport_relation_e (rl : Z -> rel) (startID : Z) (srt : list itri) (extra : list Z) : Z -> rel :=
+  import_relation rl startID
+    (run_pairs (-1) (-1) srt ++ empty_pairs (last_run (-1) (-1) srt + 1) extra).
+(* the meshIDs without triangles after the import *)
+Definition reimport_extra (startID : Z) (srt : list itri) (extra : list Z) : list Z :=
+  new_ids startID (last_run (-1) (-1) srt + 1) extra.
+
 (* per-triangle attributes compared by the round-trip statement *)
 Definition attrs (o : otri) : Z * Z * Z * Z := (oOrig o, oXform o, oFlags o, oFace o).
 
